@@ -1224,6 +1224,35 @@ func c05RunFile(c *ctx, f *c05File, d *Driver, impl *[]string) {
 		in.Note = ""
 		r.fail("c05.bytes.trailing", fmt.Sprintf("%d bytes after the last record", len(raw)-off), in)
 	}
+	// ---- (3) the reader alone: a file made of the specification encoder's bytes (bin = 0), not of the writer's
+	{
+		var sb bytes.Buffer
+		bg := bgzf.NewWriter(&sb, 1)
+		bg.Write(f.hdrBin)
+		for _, s := range f.Recs {
+			bg.Write(c05SpecEncode(s))
+		}
+		bg.Close()
+		out := c05ReadAll(sb.Bytes(), 1, 0, len(f.recs)+5)
+		in.Note = "file built by the specification encoder"
+		in.Record = ""
+		switch {
+		case out.o.timedOut:
+			r.fail("c05.readspec.hang", "bam.Reader did not finish within 60 s", in)
+		case out.o.panicked:
+			r.fail("c05.readspec.panic:"+topRepoFrame(out.o.stack), out.o.panicVal, in)
+		case out.err != io.EOF || len(out.recs) != len(f.recs):
+			r.fail("c05.readspec.end", fmt.Sprintf("%d of %d records, then %v", len(out.recs), len(f.recs), out.err), in)
+		default:
+			for i := range out.recs {
+				if fld := c05Compare(&f.expected[i], out.recs[i], 0, out.hdr); fld != "" {
+					in.Note = fmt.Sprintf("file built by the specification encoder, record %d (size %d)", i, sizes[i])
+					r.fail("c05.readspec."+fld, "the reader does not return the record the specification's bytes stand for", in)
+				}
+			}
+		}
+		r.hist("read.spec-encoded-file")
+	}
 	// ---- (2) read back: every Omit mode, rd 0..3; comparison after everything has been read
 	rds := []int{0, 1, 2, 3}
 	if len(data) > 1<<20 && !c.thorough() {
@@ -1773,10 +1802,10 @@ func checkC05(c *ctx) {
 		}
 		return
 	}
-	nFiles := 260
+	nFiles := 220
 	nMal := 1500
 	if c.thorough() {
-		nFiles = 6000
+		nFiles = 4000
 		nMal = 60000
 	}
 	profiles := []int{0, 0, 0, 1, 1, 2, 2, 3, 5, 0, 1, 2}
